@@ -23,9 +23,10 @@ KINDS = ["empty", "struct", "array", "unionref", "hybrid", "deponly", "ehybrid"]
 RULE = (
     "case = dependency graph of n<=7 classes, each of kind {field-less Struct, Struct, named Array, UnionRef, "
     "HybridClass, field-less HybridClass, Struct with only declared dependencies}, structural edges (field of the class type, field Ref[class], "
-    "field class[2], array item, array item Ref[class], union member) to earlier classes, declared (_depends_on) edges "
+    "field class[2], field of the generated base class of a named array, array item, array item Ref[class], union member) to earlier classes, declared (_depends_on) edges "
     "in any direction incl. self loops (the only way to close a cycle), and a non-empty root list in any order with "
-    "duplicates. The harness records the dependency relation while it builds the real classes. Oracle, acyclic closure: "
+    "duplicates; in one case of four the roots additionally hold two DIFFERENT classes of one name (an earlier version "
+    "without dependencies first, the real class last: the last one is the one to use). The harness records the dependency relation while it builds the real classes. Oracle, acyclic closure: "
     "sort_classes(roots) lists every class of the transitive closure that has an API exactly once (by name) and after "
     "everything it depends on, nothing else; the source written by add_kernels(compile=False, save_source_as=...) "
     "defines each XOBJ_TYPEDEF_<name> once and no class name is used before its typedef; cffi accepts the concatenated "
@@ -35,7 +36,8 @@ RULE = (
     "diamond, a chain of depth >= 3, or a field-less class that something depends on; distinct = distinct case JSON."
 )
 ASSUMPTIONS = [
-    "classes have unique names inside one case (the library identifies classes by __name__)",
+    "apart from the deliberate same-name override, classes have unique names inside one case (the library identifies "
+    "classes by __name__); generated base array classes of two named arrays over one item type are distinct objects of one name and layout",
     "a HybridClass root is passed as its _XoStruct (what kernels carry as argument type); hybrid classes declare "
     "dependencies on HybridClass objects in their class body, plain structs on Struct classes",
     "array classes carry no declared dependencies",
